@@ -1,5 +1,6 @@
 """Type universes and the TLC / replay plumbing for the Arshal model (spec/Arshal.tla,
 spec/MC_Arshal.tla).  Types are records of the model's type language; names are code points."""
+import os
 import random
 from common import B
 
@@ -219,13 +220,18 @@ def run_model(ctx, name, types, modes, prop, mopts=MOPTS, uopts=UOPTS, D=1, laws
     emit = "m" in modes or "u" in modes
     if emit:
         inv += ["EmitM", "EmitU"]
-    r = ctx.tlc("MC_Arshal", name="MC_Arshal_" + name, capture_lines=False,
-                consts={"Types": types, "D": D, "MOpts": mopts, "UOpts": uopts, "Modes": set(modes), "EmitCases": emit},
-                invariants=tuple(inv), timeout=timeout)
-    cases = 0
-    if emit:
-        s = ctx.replay_cases("arshal", r.out, prop=prop)
-        cases = int(s.get("cases", 0))
-    ctx.part("arshal_model_" + name, types=len(types), modes="".join(sorted(modes)), D=D, states=r.distinct,
+    # TLC re-evaluates a constant tuple at every reference: keep the type lists short
+    cases = states = 0
+    chunks = [types[i:i + 120] for i in range(0, len(types), 120)]
+    for k, ch in enumerate(chunks):
+        r = ctx.tlc("MC_Arshal", name="MC_Arshal_%s_%d" % (name, k), capture_lines=False,
+                    consts={"Types": ch, "D": D, "MOpts": mopts, "UOpts": uopts, "Modes": set(modes), "EmitCases": emit},
+                    invariants=tuple(inv), timeout=timeout)
+        states += r.distinct
+        if emit:
+            s = ctx.replay_cases("arshal", r.out, prop=prop)
+            cases += int(s.get("cases", 0))
+            os.remove(r.out)          # the case files are large
+    ctx.part("arshal_model_" + name, types=len(types), modes="".join(sorted(modes)), D=D, states=states,
              replayed=cases, theorems=[x for x in inv if not x.startswith("Emit")])
     return cases
